@@ -69,8 +69,7 @@ theorem absShared_ext {p p' : Pool} {sh : Shared} (h : SharedIn p sh) (he : Pool
 
 theorem cmdOk_ext {p p' : Pool} (he : PoolExt p p') {cmd : Cmd} (h : cmdOk p cmd) : cmdOk p' cmd := by
   cases cmd <;> simp only [cmdOk] at h ⊢
-  · exact ⟨h.1, h.2.ext he⟩
-  · exact h
+  exact ⟨h.1, h.2.ext he⟩
 
 theorem cmdRel_ext {iss : List Handle} {p p' : Pool} (he : PoolExt p p') {cmd : Cmd} {sc : SCmd} (hok : cmdOk p cmd)
     (h : cmdRel iss p cmd sc) : cmdRel iss p' cmd sc := by
